@@ -337,7 +337,11 @@ func (d *Driver) merge(r *ShardResult) {
 	for k, v := range r.Digests {
 		key := k
 		if old, ok := a.Digests[key]; ok && old != v {
-			a.Violations = append(a.Violations, Violation{Monitor: "cross-process", Class: "", Detail: fmt.Sprintf("digest for %s differs between processes: %s vs %s", k, old, v), Stream: k, Replay: ""})
+			dir := filepath.Join(d.Root, "replays", d.Prop.ID)
+			os.MkdirAll(dir, 0o755)
+			rp := filepath.Join(dir, fmt.Sprintf("cross-process-%s.txt", sanitize(k)))
+			os.WriteFile(rp, []byte(fmt.Sprintf("property %s: result digest of %s differs between worker processes\n  %s\n  %s\nre-run: ./check %s %s (VERIF_SEED=%d)\n", d.Prop.ID, k, old, v, d.Prop.ID, d.Tier, d.Seed)), 0o644)
+			a.Violations = append(a.Violations, Violation{Monitor: "cross-process", Class: "", Detail: fmt.Sprintf("digest for %s differs between processes: %s vs %s", k, old, v), Stream: k, Replay: rp})
 			m := a.Monitors["cross-process"]
 			if m == nil {
 				m = &MonStat{}
